@@ -25,8 +25,8 @@ def C(level, technique, text, note, ref):
 
 CLAIMS.update({
  "C03": C("model_checking", "TLA+ reference semantics WfState (named axes, natural join) evaluated by TLC per workflow record; every node output of the real workflow compared; recorded findings matched on as-built class + prediction",
-          "Workflow records (all 1-2 node workflows in thorough, seeded 3-4 node samples, diamond family) are evaluated by TLC with the nested-loop reference; each is materialised as source text and run for real; every node's output must equal TLC's symbolic term (pairing, order, loss, duplication).",
-          "Trusted: TLC, WfState.tla, JSON bridge, generated source. Not generated: inner splits over upstream list outputs, nested workflows. Three recorded known-finding classes are matched only on class + as-built observation.", "6/C03"),
+          "Workflow records (all 1-2 node workflows in thorough, seeded 3-4 node samples, diamond and triangle families, nested-workflow nodes, splits over upstream outputs, list-maker and zero-job nodes) are evaluated by TLC with the nested-loop reference; each is materialised as source text and run for real; every node's output must equal TLC's symbolic term (pairing, order, loss, duplication).",
+          "Trusted: TLC, WfState.tla, JSON bridge, generated source. Not replayed: records TLC flags as ragged/unsplittable upstream values or zero jobs under a partial combiner. Four recorded known-finding classes are matched only on class + as-built observation.", "6/C03"),
  "C06": C("model_checking", "Identity.tla (relational cache-identity spec): TLC-enumerated submission histories replayed on pydra, events validated by TLC (M4)",
           "TLC enumerates every 4-submission history over task pairs differing in one of 13 aspects; each history is executed in a fresh cache root and the (key, hit, output) events are validated against Identity!Submit (a hit only after an equal semantic key; outputs equal a fresh execution).",
           "Trusted: TLC, the aspect labelling of generated source text, textual output comparison; 32 concrete task pairs, debug worker.", "6/C06"),
@@ -55,13 +55,13 @@ CLAIMS.update({
           "IndependentJobsRun, DependentsNeverRun, ErrorNamesEveryFailedJob, FailureIsReported, NeverCrashes for every interleaving of worker progress and scans; sampled schedules replayed (bodies released/failed in order, waiting for the loop's scan in between).",
           "Scan is modelled atomically; launch order within a pass is not controlled.", "6/C14"),
  "C15": C("model_checking", "Submitter.tla M1 (StartAfterPredsSucceeded, EachJobOnce) + TLC schedules on real cf/debug Submitter + M4",
-          "Chains, fan-in/out, diamonds, split nodes x K x every interleaving in the model; sampled completion orders forced on the cf worker; debug worker ungated; body start/end events validated.",
+          "Chains, fan-in/out, diamonds, split nodes, a zero-job node x K x every interleaving in the model; sampled completion orders forced on the cf worker; debug worker ungated; body start/end events validated.",
           "Node-level gating as in the code (a node starts when all jobs of all predecessors are done).", "6/C15"),
  "C16": C("model_checking", "Submitter.tla WithinLimit M1 + held bodies on a real cf Submitter, concurrency measured from events by TLC",
           "K in 1..3 over independent/split/chained jobs, every interleaving; schedules replayed with 8 pool processes so only max_concurrent limits; in-flight count evaluated by the WithinLimit invariant on the trace.",
           "In flight = launched and body not ended.", "6/C16"),
  "C17": C("model_checking", "WfState.tla reference (TLC) as single oracle for every worker configuration; Submitter.tla covers schedule independence of the loop",
-          "C03 generator x {debug, cf 1/2/4/8 procs} x max_concurrent x seeded per-job delays; all node outputs equal TLC's terms.",
+          "C03 generator (incl. nested workflows, splits over upstream outputs, the empty-split family) x {debug, cf 1/2/4/8 procs} x max_concurrent x seeded per-job delays; all node outputs equal TLC's terms.",
           "Completion orders permuted by delays, not forced (forced orders: C15). Records of recorded C03 findings skipped.", "6/C17"),
  "C18": C("model_checking", "Liveness by TLC: Submitter.tla <>Terminated under fairness; GraphSort.tla terminates for every edge set (cycles included); every edge set built for real under a time bound",
           "GraphSort enumerates all edge sets over 3 (4) nodes with expected verdict; sampled sets x typed/untyped x worker built through node input assignment and submitted in a child with a wall-clock bound; killed = violation; verdict/outputs as specified.",
@@ -97,8 +97,8 @@ CLAIMS.update({
           "Every response sequence <=6 and every -J/-o/-e/--no-requeue combination in the model; generated behaviours replayed step-wise (submit/poll/requeue events, verdict, argv).",
           "Scheduler simulated by fake sbatch/squeue/sacct/scontrol/qsub/qstat/qacct.", "6/C28"),
  "C29": C("model_checking", "Shipping.tla (Ship = stuttering step on the job projection) validating recorded round trips through a fresh interpreter",
-          "C03 workflow records, python and shell tasks x 4 worker/submitter configurations: projection before/after cloudpickle in another interpreter, outputs of the shipped run, result read back, reference run.",
-          "Thin use of TLA+ (one action).", "6/C29"),
+          "C03 workflow records, python and shell tasks x worker/submitter configurations enumerated by TLC (Shipping_Gen: plugin x by name/class/instance x parameter set x caches x audit x max_concurrent): projection (every scalar worker parameter, pool size) before/after cloudpickle in another interpreter, outputs of the shipped run, result read back, reference run.",
+          "Thin use of TLA+ (one action + a configuration generator); batch-system workers are shipped and projected, not run.", "6/C29"),
  "C30": C("model_checking", "WfConstructCache.tla M1 (Transparent, NoLeak) + every TLC history replayed in one interpreter and compared with fresh constructions",
           "Histories of construct(w, inputs, lazy)/run over two definitions (one value-dependent), three vectors, every lazy set; projection of each returned workflow equals a fresh construction's; no shared node objects between different constructions.",
           "Usage assumption made explicit by TLC: branch inputs are never lazy.", "6/C30"),
@@ -117,14 +117,14 @@ CLAIMS.update({
           "Every definition of the bounded families (<=4 fields exhaustively, 5 on a seed-chosen shard; requires with/without allowed values; xor groups with/without None) x every value assignment; python.define and shell.define classes must agree; violations reported with no task body run and no job directory.",
           "Falsy-but-set values, self-requirements and allowed values on non-str fields are outside the menu.", "6/C31"),
  "C32": C("model_checking", "DefRoundTrip.tla (FromDict o ToDict preserves the projection, checked by TLC) + real unstructure->structure compared with the TLC projection, verdicts and command lines",
-          "The C31 rule space and field-template definitions (help, allowed values, argstr, sep, default, positions, rules): the re-created class must have the spec's projection and give the same rule verdict / cmdline on every assignment and the same outputs on an executed sample.",
-          "TLA+ serves mainly as relational/projection oracle here; JSON leg is an observation; known finding for `requires` matched on the exact as-built error.", "6/C32"),
+          "The C31 rule space and field-template definitions (help, allowed values, argstr, sep, default, positions, rules): the re-created class must have the spec's projection (incl. field order and output order) and give the same rule verdict / cmdline on every assignment and the same outputs on an executed sample.",
+          "TLA+ serves mainly as relational/projection oracle here; JSON leg is an observation; the `requires` finding is fixed (its as-built reference remains as model sensitivity).", "6/C32"),
  "C33": C("model_checking", "Staging.tla enumerated by TLC (one state per nested output value); replayed on real one-node workflows",
           "Shape, content, destinations inside the workflow directory, distinct sources to disjoint destinations, sources intact.",
           "Values to depth 2; quick is a seeded sample.", "6/C33"),
  "C34": C("model_checking", "Staging.tla + copy-mode table enumerated by TLC; replayed through Job.inputs of real Jobs with inode / write-through probes",
-          "copy => independent (write probes both ways), link/hardlink/symlink => shows the original, shape and non-file values kept, same object staged once.",
-          "Cross-field same-name staging (FileExistsError) is an observation: the quantifier is per nested value.", "6/C34"),
+          "copy => independent (write probes both ways), link/hardlink/symlink => shows the original, shape and non-file values kept, same object staged once; two file fields of one task are each staged by their own mode (Staging!LeafDemand), also when they hold the same object.",
+          "Destinations across fields are left open by the statement.", "6/C34"),
  "C37": C("model_checking", "DiGraphSpec.tla state machine: TLC design check (all valid orders) + TLC behaviours (BFS paths, -simulate 12 steps / 6 nodes) replayed step by step on a real DiGraph + TLC validation of recorded sorted lists",
           "SortedValid, AcyclicInv on <=4 nodes exhaustively; every behaviour replayed in four call variants comparing nodes, edges, wip, predecessors, successors, sorted_nodes after each step.",
           "add_edges while a removed node still has connections is left open by the statement.", "6/C37"),
